@@ -142,7 +142,7 @@ class C06(Prop):
     theorems = ["EaselModel.Props.C06." + t for t in (
         "codec_roundtrip", "codec_bigendian", "bsearch_correct", "write_spec", "write_ok_iff_distinct", "write_dup_no_file",
         "written_file", "open_written", "findName_stored", "findName_alias_partial", "findName_absent", "findNumber_sorted",
-        "fileInfo_spec", "internal_eq_external", "history_write", "history_index_correct", "history_alias_partial", "findSubseq_spec", "findSubseq_erange", "exCross_wf",
+        "fileInfo_spec", "internal_eq_external", "history_write", "history_index_correct", "history_alias_partial", "history_enumeration", "findSubseq_spec", "findSubseq_erange", "exCross_wf",
         "cross_class_duplicate_accepted")]
     claimed = True
     technique = ("Lean 4 proof about an executable model of esl_ssi.c (writer, on-disk layout, binary search, alias indirection) "
@@ -303,6 +303,11 @@ class C06(Prop):
                     look.append("subseq k=%s start=%d" % (hx(k[0]), s))
         for a in (rng.sample(aliases, min(len(aliases), 2)) if aliases else []):
             look.append("subseq k=%s start=1" % hx(a[0]))
+        for k in (rng.sample(keys, min(len(keys), 3)) if keys else []) + [(b"zz-absent",)]:
+            look.append("findq k=%s" % hx(k[0]))
+        for a in (rng.sample(aliases, min(len(aliases), 2)) if aliases else []):
+            look.append("findq k=%s" % hx(a[0]))
+        look += ["findnumq i=%d" % i for i in (0, n - 1, n)]
         if rng.random() < 0.7:
             rng.shuffle(look)         # lookups of different kinds interleave: no call may rely on the file position left by another
         ops += look
@@ -544,6 +549,18 @@ class C06(Prop):
                 isopen = None
             elif isopen is None:
                 continue
+            elif name == "findnumq":
+                i = int(a["i"])
+                exp = "ok" if 0 <= i < len(isopen["sorted"]) else "enotfound"
+                if l != exp: return fail("FindNumber(%d) with no result pointers returned %r, expected %r" % (i, l, exp))
+            elif name == "findq":
+                k = unhx(a["k"])
+                tgt = isopen["pk"].get(k)
+                if tgt is None and k in isopen["al"]:
+                    if isopen["al"][k] not in isopen["pk"]: continue
+                    tgt = isopen["pk"][isopen["al"][k]]
+                exp = "enotfound" if tgt is None else "ok fh=%d r=%d" % tgt[:2]
+                if l != exp: return fail("FindName(%r) without optional results returned %r, stored: %r" % (k, l, exp))
             elif name in ("find", "subseq"):
                 k = unhx(a["k"])
                 tgt = None
